@@ -529,7 +529,24 @@ func main() {
 							fmt.Sprintf("contract-call query failed on a replica (%s) although the same query is answered by a replica with the same chain that has executed a block since it started: %s", r.who, e), nil, nil)
 						break
 					}
-					r.record(calls, r.key, map[string]string{"contract-call": hex.EncodeToString(ret)}, si, "Query(call)", "Query:")
+					env, err := r.node.Env()
+					if err != nil {
+						r.fail(si, "Query(call)", "panic", true, "query-panic:contract-call", "contract-call query failed: "+err.Error(), nil, nil)
+						break
+					}
+					// the header a query runs under is the last EXECUTED block's: key by chain and pending block
+					pk := ""
+					if r.pending != nil {
+						pk = "|" + chainKey("", r.ptxs)
+					}
+					r.record(calls, r.key+pk, map[string]string{"contract-call": hex.EncodeToString(ret), "contract-env": hex.EncodeToString(env)}, si, "Query(call)", "Query:")
+					if res := resOf(st.Post); model && res != nil && len(env) == 64 {
+						if ans, ok := res["ans"].(map[string]interface{}); ok && ans["hdr"] != nil {
+							if w, g := int64(mbt.Int(ans["hdr"])), int64(binary.BigEndian.Uint64(env[24:32])); w != g {
+								r.fail(si, "Query(call)", "mismatch", false, "internal:query-header", "block number seen by a contract-call query differs from the specification", w, g)
+							}
+						}
+					}
 					if res := resOf(st.Post); model && res != nil {
 						if ans, ok := res["ans"].(map[string]interface{}); ok && ans["cnt"] != nil {
 							want := int64(mbt.Int(ans["cnt"]))
